@@ -162,7 +162,8 @@ func genValidPattern(t *rapid.T) (gpat, string) {
 var c13Defects = []string{"unicode-host", "uppercase-host", "userinfo", "path", "query", "fragment", "leading-space", "trailing-space", "empty-port",
 	"zero-port", "overrange-port", "overlong-port", "leading-zero-port", "default-port", "null", "file-scheme", "hex-ipv4", "short-ipv4", "leading-zero-ipv4",
 	"expanded-ipv6", "uppercase-ipv6", "zoned-ipv6", "ipv4-mapped-ipv6", "wildcard-middle", "double-wildcard", "partial-label-wildcard", "partial-port-wildcard",
-	"wildcard-before-ip", "domain-254", "label-64", "missing-slashes", "uppercase-scheme", "wildcard-252", "tab-inside", "missing-scheme", "empty-label", "hyphen-edge-label", "overlong-scheme"}
+	"wildcard-before-ip", "domain-254", "label-64", "missing-slashes", "uppercase-scheme", "wildcard-252", "tab-inside", "missing-scheme", "empty-label", "hyphen-edge-label", "overlong-scheme",
+	"bad-scheme-byte", "bad-host-byte", "bad-port-byte"}
 
 // applyDefect plants exactly one documented defect into a valid pattern.
 // It returns "" when the defect does not apply to this base.
@@ -280,6 +281,34 @@ func applyDefect(t *rapid.T, g gpat, defect string) string {
 			w = "*."
 		}
 		return g.scheme + "://" + w + host + orStr2(g.port)
+	case "bad-scheme-byte":
+		// a byte that no scheme may contain (RFC 3986: ALPHA *( ALPHA / DIGIT / "+" / "-" / "." )), replacing or following any scheme byte; or a first byte that is not a letter
+		if chance(t, "schfirst", 20) {
+			return pick(t, "sch0", []string{"1", "+", "-", ".", "9"}) + s
+		}
+		i := 1 + uniform(t, "schpos", len(g.scheme))
+		b := c13Punct[uniform(t, "schb", len(c13Punct))]
+		if chance(t, "schins", 50) || i == len(g.scheme) {
+			return s[:i] + string(b) + s[i:]
+		}
+		return s[:i] + string(b) + s[i+1:]
+	case "bad-host-byte":
+		if g.kind != "domain" {
+			return ""
+		}
+		i := uniform(t, "hbpos", len(g.host)+1)
+		b := c13Punct[uniform(t, "hbb", len(c13Punct))]
+		if b == ',' && false {
+			return ""
+		}
+		h := g.host[:i] + string(b) + g.host[i:]
+		if chance(t, "hbrepl", 50) && i < len(g.host) && g.host[i] != '.' {
+			h = g.host[:i] + string(b) + g.host[i+1:]
+		}
+		return hostPort(h, g.port)
+	case "bad-port-byte":
+		// port syntaxes that lenient integer parsers accept, and stray bytes among the digits
+		return hostPort(g.host, pick(t, "bpb", []string{"+80", "-1", "8_0", "8_080", "1e3", "0x50", "0b11", "0o17", "80a", "a80", "8,0", " 80", "80 ", "8.0", "８０", "٨٠", "80\x00", "\x0080", "8\t0"}))
 	case "overlong-scheme":
 		// "All valid schemes (no longer than 64 bytes) ... are permitted"
 		n := pick(t, "schlen", []int{65, 65, 66, 100})
@@ -311,6 +340,9 @@ func applyDefect(t *rapid.T, g gpat, defect string) string {
 	}
 	return ""
 }
+
+// c13Punct are bytes that belong to no scheme and to no host.
+const c13Punct = ",;!$&'()=~^|\\{}<>\"`\x7f\x00\x80\xff%"
 
 // genLongDomain builds a domain of exactly n bytes (n may exceed 253) from
 // valid labels.
@@ -520,7 +552,7 @@ func c13Check(c C13Case, rec *Recorder) *Disc {
 func c13Prop() Prop[C13Case] {
 	return Prop[C13Case]{ID: "C13", Gen: c13Gen, Check: c13Check,
 		Rule: "generator: patterns built from the documented grammar (scheme up to 64 bytes incl. near-'file' schemes; LDH domains up to exactly 253 bytes, 63-byte labels, Punycode, trailing dot; IPv4/IPv6 canonical literals via net/netip; *. before domains up to 251 bytes; " +
-			"ports absent/*/1..65535/other scheme's default; a forced 'every maximum at once' branch: 64-byte scheme + 253-byte domain + trailing dot + 5-digit port) - valid by construction - and 38 single-defect mutations of them - invalid by construction. " +
+			"ports absent/*/1..65535/other scheme's default; a forced 'every maximum at once' branch: 64-byte scheme + 253-byte domain + trailing dot + 5-digit port) - valid by construction - and 41 single-defect mutations of them - invalid by construction. " +
 			"Oracle: valid => accepted, wildcard-free patterns match themselves verbatim (GET and preflight), wildcard patterns match an instance, and (40% of valid cases) the same when the pattern is listed at any position among 1-5 companion patterns (the same host under other schemes and ports, ancestor domains plain or under a wildcard, descendants, siblings, or unrelated valid patterns): the list is accepted and every wildcard-free member matches itself; invalid => rejected, every reported error an *UnacceptableOriginPatternError with Value == the string, Reason in {invalid, prohibited} (prohibited for null and file); and (35% of invalid cases) listed at any position among 1-3 valid entries (often the single asterisk) the list is rejected with an error naming the string. " +
 			"non-trivial = valid pattern with a component at a documented maximum, an IP literal, Punycode or trailing dot, or any invalid pattern; distinct by pattern string.",
 		Assumptions: []string{"grey zones not generated: https with IP host, '_' in schemes or labels, hyphens in label positions 3-4, TLD starting with a digit, *. + 251-byte domain + trailing dot"}}
